@@ -52,11 +52,11 @@ Theorem source_residual_identity_2d (src tgt nrm : list (list R)) (corr : list (
   let lin := lin_residual_2d (tsrc tr r) (ttgt tr r) (tnrm tr r) z in
   let same_w := vg (tsrc tr r) 2 = vg (ttgt tr r) 2 in
   (triples_of_corr src tgt nrm corr = Some tr ->
-     res (fst (src_estimate_corr_V2 ROps FJY (f_estimate x) f_setJ f_setY f_setDataSize src tgt nrm corr s0)) = lin /\
-     (same_w -> res (fst (src_estimate_corr_H2 ROps FJY (f_estimate x) f_setJ f_setY f_setDataSize src tgt nrm corr s0)) = lin)) /\
+     res (fst (src_estimate_corr_V2 ROps FJY (f_methods ROps x) src tgt nrm corr s0)) = lin /\
+     (same_w -> res (fst (src_estimate_corr_H2 ROps FJY (f_methods ROps x) src tgt nrm corr s0)) = lin)) /\
   (triples_aligned src tgt nrm = Some tr ->
-     res (fst (src_estimate_aligned_V2 ROps FJY (f_estimate x) f_setJ f_setY f_setDataSize src tgt nrm s0)) = lin /\
-     (same_w -> res (fst (src_estimate_aligned_H2 ROps FJY (f_estimate x) f_setJ f_setY f_setDataSize src tgt nrm s0)) = lin)).
+     res (fst (src_estimate_aligned_V2 ROps FJY (f_methods ROps x) src tgt nrm s0)) = lin /\
+     (same_w -> res (fst (src_estimate_aligned_H2 ROps FJY (f_methods ROps x) src tgt nrm s0)) = lin)).
 Proof.
   intros Hr res lin same_w. destruct (source_tie_rows_2d ROps src tgt nrm corr tr x s0) as [Hc Ha].
   split; intros H; [destruct (Hc H) as [HV HH]|destruct (Ha H) as [HV HH]]; split.
@@ -73,11 +73,11 @@ Theorem source_residual_identity_3d (src tgt nrm : list (list R)) (corr : list (
   let lin := lin_residual_3d (tsrc tr r) (ttgt tr r) (tnrm tr r) z in
   let same_w := vg (tsrc tr r) 3 = vg (ttgt tr r) 3 in
   (triples_of_corr src tgt nrm corr = Some tr ->
-     res (fst (src_estimate_corr_V3 ROps FJY (f_estimate x) f_setJ f_setY f_setDataSize src tgt nrm corr s0)) = lin /\
-     (same_w -> res (fst (src_estimate_corr_H3 ROps FJY (f_estimate x) f_setJ f_setY f_setDataSize src tgt nrm corr s0)) = lin)) /\
+     res (fst (src_estimate_corr_V3 ROps FJY (f_methods ROps x) src tgt nrm corr s0)) = lin /\
+     (same_w -> res (fst (src_estimate_corr_H3 ROps FJY (f_methods ROps x) src tgt nrm corr s0)) = lin)) /\
   (triples_aligned src tgt nrm = Some tr ->
-     res (fst (src_estimate_aligned_V3 ROps FJY (f_estimate x) f_setJ f_setY f_setDataSize src tgt nrm s0)) = lin /\
-     (same_w -> res (fst (src_estimate_aligned_H3 ROps FJY (f_estimate x) f_setJ f_setY f_setDataSize src tgt nrm s0)) = lin)).
+     res (fst (src_estimate_aligned_V3 ROps FJY (f_methods ROps x) src tgt nrm s0)) = lin /\
+     (same_w -> res (fst (src_estimate_aligned_H3 ROps FJY (f_methods ROps x) src tgt nrm s0)) = lin)).
 Proof.
   intros Hr res lin same_w. destruct (source_tie_rows_3d ROps src tgt nrm corr tr x s0) as [Hc Ha].
   split; intros H; [destruct (Hc H) as [HV HH]|destruct (Ha H) as [HV HH]]; split.
